@@ -164,6 +164,10 @@ impl TkWorld {
                 let r = guarded(|| self.client().try_allowance(&f, &s));
                 self.fin(r, |v: &i128| format!(" X{v}"))
             }
+            "tk.token_id" => {
+                let r = guarded(|| self.client().try_token_id());
+                self.fin(r, |v: &BytesN<32>| format!(" x{}", hex::encode(v.to_array())))
+            }
             "tk.owner" => {
                 let r = guarded(|| self.client().try_owner());
                 self.fin(r, |v: &Address| format!(" {}", Addr::from_sdk(v).tok()))
